@@ -119,10 +119,14 @@ C13Laws ==
 
 (* ---- C14 ---------------------------------------------------------------*)
 (* the structural image (what structural_digest hashes) carries exactly the pattern *)
+Cases(e) == {<<p, At(e, p)[1]>> : p \in Paths(e)}
 C14Laws ==
   \A r1 \in Full, r2 \in Full :
     LET x == reg[r1]  y == reg[r2] IN
-    /\ (StructImage(x) = StructImage(y)) <=> (Pattern(x) = Pattern(y))
+    /\ (StructImage(x) = StructImage(y)) => (Pattern(x) = Pattern(y))
+    (* the converse up to the image collision (an assertion {X: Y} and a node [X, Y] have equal patterns,
+       their image terms are spelled differently and evaluate to the same bytes) *)
+    /\ (Pattern(x) = Pattern(y) /\ Cases(x) = Cases(y)) => (StructImage(x) = StructImage(y))
     /\ Identical(x, y) => Equivalent(x, y)
     /\ Identical(x, x)
     /\ Identical(x, y) <=> Identical(y, x)
@@ -311,7 +315,7 @@ C19Step ==
         /\ ((\A x \in AssertionsWithPredicate(Res, KV(KvAttachment)) : ValidAttachment(x))
              /\ ~\E x \in Assertions(Src) : Dg(x) = Dg(a) /\ x # a) =>
               \E y \in Val(Attachments(Res, Arg(3), Arg(4))) : Dg(y) = Dg(a)
-  /\ (Op = "add_bad_attachment" /\ OkStep) => ~IsOk(Attachments(Res, NoStr, NoStr))
+  /\ (Op = "add_bad_attachment" /\ OkStep /\ Res # Src) => ~IsOk(Attachments(Res, NoStr, NoStr))
   /\ (Op = "add_type" /\ OkStep) =>
         /\ (~\E x \in Assertions(Src) : Dg(x) = Dg(Assn(KV(KvIsA), Arg(2))) /\ x # Assn(KV(KvIsA), Arg(2))) => HasType(Res, Arg(2))
         /\ \A t \in TypeVals : (Dg(t) # Dg(Arg(2))) => (HasType(Res, t) <=> HasType(Src, t))
